@@ -34,7 +34,7 @@ func (c15) Assumptions() []string {
 	return []string{"self-differential: a fresh ValueReader running the same code is the reference", "documents and pool schedules are sampled"}
 }
 func (c15) Required(tier string) []string {
-	return []string{"P-miss", "P-pick", "P-evict", "X-mutate-result", "A-abort", "pool-hit-serves-a-previously-used-reader", "read-after-failed-read", "read-after-depth-limit-exit", "read-after-10x-larger-document", "snapshots-rechecked", "input-in-reused-arena", "top-level-string", "next-message-same-address-same-length-other-content", "thousands-of-never-seen-field-names", "partial-message-then-retry-at-the-same-address"}
+	return []string{"P-miss", "P-pick", "P-evict", "X-mutate-result", "A-abort", "pool-hit-serves-a-previously-used-reader", "read-after-failed-read", "read-after-depth-limit-exit", "read-after-10x-larger-document", "snapshots-rechecked", "input-in-reused-arena", "top-level-string", "next-message-same-address-same-length-other-content", "thousands-of-never-seen-field-names", "partial-message-then-retry-at-the-same-address", "G-gc"}
 }
 
 var vrOps = []string{"VR.ReadValue", "VR.ReadObject", "VR.ReadArray"}
@@ -225,6 +225,9 @@ func genVRHistory(r *Rand, sc *Scenario, withMutations bool) {
 		}
 	}
 	sc.Tasks = [][]Op{ops}
+	if r.Chance(1, 30) && len(ops) <= 12 {
+		sc.Cfg["gc-between-calls"] = 1
+	}
 }
 
 // mutateTree changes a returned tree the way a caller might.
@@ -326,6 +329,7 @@ func (c15) Exec(sc *Scenario, st *Stats) *Violation {
 		viol := func(class, detail string) *Violation {
 			return &Violation{Class: class, Task: 0, Op: oi, Sig: "C15/" + class + "/" + op.Kind, Detail: detail}
 		}
+		gcBetween(sc, st, oi)
 		switch op.Kind {
 		case "mutate-result":
 			if len(results) == 0 {
@@ -475,7 +479,7 @@ func (c03) Assumptions() []string {
 	return []string{"reduced scope: what is decided is independence of the result from pool scheduling and reader reuse, plus agreement with the model on sampled documents; exhaustiveness over byte strings is not claimed", "reference parser cross-checked against encoding/json per document"}
 }
 func (c03) Required(tier string) []string {
-	return []string{"P-miss", "P-pick", "P-evict", "duplicate-key", "escaped-key", "empty-container", "typed-entry-rejects-null", "typed-entry-rejects-other-root", "number-out-of-range-rejected", "depth-10000-accepted", "depth-10001-rejected", "invalid-utf8-kept", "model-vs-encoding-json-tree-checked", "input-in-reused-arena", "next-message-same-address-same-length-other-content", "X-mutate-result", "partial-message-then-retry-at-the-same-address"}
+	return []string{"P-miss", "P-pick", "P-evict", "duplicate-key", "escaped-key", "empty-container", "typed-entry-rejects-null", "typed-entry-rejects-other-root", "number-out-of-range-rejected", "depth-10000-accepted", "depth-10001-rejected", "invalid-utf8-kept", "model-vs-encoding-json-tree-checked", "input-in-reused-arena", "next-message-same-address-same-length-other-content", "X-mutate-result", "partial-message-then-retry-at-the-same-address", "G-gc"}
 }
 
 func (c03) Gen(r *Rand, sc *Scenario, tier string) {
@@ -607,6 +611,7 @@ func (c03) Exec(sc *Scenario, st *Stats) *Violation {
 	arena := make([]byte, maxLen) // a read buffer the caller reuses: same address for every call that asks for it
 	var c03results []interface{}  // trees returned so far, owned (and sometimes modified) by the caller
 	for oi, op := range sc.Tasks[0] {
+		gcBetween(sc, st, oi)
 		if op.Kind == "evict-pool" {
 			pool.evictAll()
 			st.fault("P-evict")
